@@ -100,6 +100,7 @@ func init() {
 		c.needFixture("no-underflow")
 		c16CancelAndGates(c)
 		c16MarkerWithHistory(c)
+		c16InitOneView(c)
 		c16BloomWindowAndScratch(c)
 
 		// floor-first
@@ -894,4 +895,97 @@ func c16RetOK(rv ssa.Value, g *ssa.Function, args []ssa.Value, want string, dept
 		return strings.Contains(t, want)
 	}
 	return false
+}
+
+
+// c16InitOneView: the pruning node's start-up initialisation of the running event filter reads the chain height, the retention
+// floor, the stored filter AND every header of the range it walks from ONE database snapshot. The floor is only meaningful
+// for the view it was read from: if the header walk reads the live database instead (seeded change C16-I releases the snapshot
+// early "to not pin pebble"), a prune that advances the floor in between deletes headers the walk was clamped to, the
+// initialisation fails, and — being stored under a sync.Once — every later Store, RevertHead and events query fails with it.
+func c16InitOneView(c *Ctx) {
+	p := c.P
+	f := p.Func("pruner", "", "InitializeRunningEventFilter")
+	if f == nil {
+		c.und("init-one-view", "pruner.InitializeRunningEventFilter", "", "anchor not found")
+		return
+	}
+	var snap *ssa.Call
+	for _, s := range sitesOf(f) {
+		if s.Method != nil && s.Method.Name() == "NewSnapshot" {
+			snap, _ = s.Instr.(*ssa.Call)
+		}
+	}
+	if snap == nil {
+		c.viol("init-one-view", "InitializeRunningEventFilter: snapshot", p.Pos(fnPos(f)), "the initialisation no longer reads from a database snapshot")
+		return
+	}
+	fromSnap := func(v ssa.Value) bool {
+		for d := 0; v != nil && d < 6; d++ {
+			if v == ssa.Value(snap) {
+				return true
+			}
+			switch x := v.(type) {
+			case *ssa.ChangeInterface:
+				v = x.X
+			case *ssa.MakeInterface:
+				v = x.X
+			case *ssa.ChangeType:
+				v = x.X
+			case *ssa.UnOp:
+				a, isA := x.X.(*ssa.Alloc)
+				if !isA {
+					return false
+				}
+				st := singleStore(a)
+				if st == nil {
+					return false
+				}
+				v = st.Val
+			default:
+				return false
+			}
+		}
+		return false
+	}
+	n := 0
+	var reads []ssa.Instruction
+	for _, s := range sitesOf(f) {
+		if s.Callee == nil || s.Instr == ssa.Instruction(snap) {
+			continue
+		}
+		sig := s.Callee.Signature
+		args := s.Args()
+		off := 0
+		if sig.Recv() != nil {
+			off = 1
+		}
+		for i := 0; i < sig.Params().Len() && i+off < len(args); i++ {
+			if !strings.HasSuffix(sig.Params().At(i).Type().String(), "juno/db.KeyValueReader") {
+				continue
+			}
+			n++
+			reads = append(reads, s.Instr)
+			c.check(fromSnap(args[i+off]), "init-one-view", fmt.Sprintf("InitializeRunningEventFilter → %s (reader)", s.Callee.Name()), p.Pos(s.Pos()), "reads through the snapshot taken at the start", "this read goes through "+term(args[i+off])+", not through the snapshot the retention floor was read from: a concurrent prune can delete what the floor promised")
+		}
+	}
+	// the snapshot stays open while it is read: its Close is deferred, or no explicit Close precedes a read
+	for _, s := range sitesOf(f) {
+		if s.Method == nil || s.Method.Name() != "Close" || !fromSnap(s.Recv) {
+			continue
+		}
+		if _, isDefer := s.Instr.(*ssa.Defer); isDefer {
+			continue
+		}
+		bad := false
+		for _, r := range reads {
+			if dominatesInstr(s.Instr, r) {
+				bad = true
+			}
+		}
+		c.check(!bad, "init-one-view", "InitializeRunningEventFilter: snapshot released", p.Pos(s.Pos()), "released after the last read", "the snapshot is closed before reads that go through it")
+	}
+	if n < 4 {
+		c.und("init-one-view", "InitializeRunningEventFilter", p.Pos(fnPos(f)), fmt.Sprintf("only %d reader-taking calls found", n))
+	}
 }
